@@ -605,12 +605,12 @@ structure Bisim {σ : Type} (W : World) (pos : σ → Nat) (good : σ → Prop) 
 
 /-- what the C09 premise says about one output frame: playback rate not negative, and the decoder has
     buffered the four-frame window plus every frame this output frame steps over (or has reached the end) -/
-structure FrameOk {σ : Type} (s : Sys σ ℝ) (a m : Nat) (t dt : ℝ) (fuel : Nat) : Prop where
+structure FrameOk {σ : Type} (s : Sys σ ℝ) (t dt : ℝ) (fuel : Nat) : Prop where
   dt_nonneg : 0 ≤ dt
   rate_nonneg : 0 ≤ s.playbackRate.interpolatedValue tw64 t
   rate_sign : signNeg s.playbackRate.value = false
   fuel_ok : ⌊s.frac + s.fracStep t dt⌋₊ < fuel
-  ahead : s.reachedEnd = true ∨ a + 4 + ⌊s.frac + s.fracStep t dt⌋₊ ≤ m
+  ahead : s.reachedEnd = true ∨ 4 + ⌊s.frac + s.fracStep t dt⌋₊ ≤ s.ring.len
 
 theorem fracStep_nonneg {σ : Type} (s : Sys σ ℝ) (t dt : ℝ) (hdt : 0 ≤ dt) : 0 ≤ s.fracStep t dt := by
   unfold Sys.fracStep
@@ -634,7 +634,7 @@ theorem shade_eq {σ : Type} {st : StaticSound ℝ} {s : Sys σ ℝ} (hv : st.vo
 /-- **one output frame**: same output, and the relation holds again `k = ⌊frac + step⌋` steps further -/
 theorem frame_bisim {σ : Type} {W : World} (hW : W.Ok) {pos : σ → Nat} {good : σ → Prop}
     {st : StaticSound ℝ} {s : Sys σ ℝ} {a m : Nat} (B : Bisim W pos good st s a m)
-    (t dt : ℝ) (fuel : Nat) (F : FrameOk s a m t dt fuel) :
+    (t dt : ℝ) (fuel : Nat) (F : FrameOk s t dt fuel) :
     ∃ st' s' out, st.renderFrame fuel t dt = .ok (st', out) ∧ s.renderFrame fuel t dt = .ok (s', out) ∧
       Bisim W pos good st' s' (a + ⌊s.frac + s.fracStep t dt⌋₊) m ∧
       s'.playbackRate = s.playbackRate ∧ s'.reachedEnd = s.reachedEnd ∧ s'.sampleRate = s.sampleRate := by
@@ -642,6 +642,14 @@ theorem frame_bisim {σ : Type} {W : World} (hW : W.Ok) {pos : σ → Nat} {good
   have hsn := fracStep_nonneg s t dt F.dt_nonneg
   have h0 : 0 ≤ s.frac + s.fracStep t dt := add_nonneg B.frac_nonneg hsn
   set k := ⌊s.frac + s.fracStep t dt⌋₊ with hk
+  have hAh : s.reachedEnd = true ∨ a + 4 + k ≤ m := by
+    rcases F.ahead with h | h
+    · exact Or.inl h
+    · right
+      have hl : s.ring.len = m - a := by
+        show s.ring.items.length = m - a
+        rw [B.tAt.ring, W.ringSlice_length]
+      rw [hl] at h; omega
   have hsign : signNeg st.playbackRate.value = false := by rw [B.playbackRate]; exact F.rate_sign
   -- the static side
   have hS := StaticSound.renderFrame_spec fuel st t dt (by rw [B.frac, hstep]; exact h0)
@@ -657,7 +665,7 @@ theorem frame_bisim {σ : Type} {W : World} (hW : W.Ok) {pos : σ → Nat} {good
     simp only [← hk, hring]
   -- the two outputs
   have hahead0 : s.reachedEnd = true ∨ a + 4 ≤ m := by
-    rcases F.ahead with h | h
+    rcases hAh with h | h
     · exact Or.inl h
     · exact Or.inr (by omega)
   have hout : st.shade t (st.resampler.get s.frac) = s.shade t s.rawFrame := by
@@ -708,7 +716,7 @@ theorem frame_bisim {σ : Type} {W : World} (hW : W.Ok) {pos : σ → Nat} {good
       · have hre' : s.reachedEnd = false := by simpa using hre
         have hml : ¬ m = L + 1 := fun hc => hre (h2.mpr hc)
         have hah : a + 4 + k ≤ m := by
-          rcases F.ahead with h | h
+          rcases hAh with h | h
           · exact absurd h hre
           · exact h
         have : ¬ L + 4 ≤ a + 3 + k := by omega
@@ -766,7 +774,7 @@ theorem frame_bisim {σ : Type} {W : World} (hW : W.Ok) {pos : σ → Nat} {good
       endStopped := hcoreSync.2
       a_le := by
         rw [c6]; intro hre
-        rcases F.ahead with h | h
+        rcases hAh with h | h
         · rw [hre] at h; cases h
         · omega
       noErr := by rw [c12]; exact B.noErr
@@ -774,6 +782,482 @@ theorem frame_bisim {σ : Type} {W : World} (hW : W.Ok) {pos : σ → Nat} {good
   · exact (by unfold Sys.checkEnd; split <;> rfl)
   · exact (by unfold Sys.checkEnd; split <;> rfl)
   · exact (by unfold Sys.checkEnd; split <;> rfl)
+
+
+/-! ### a whole `process` call, `on_start_processing`, commands -/
+
+/-- chunk time of output frame `i` of `len` -/
+noncomputable def chunkTime (i len : Nat) : ℝ := (KOps.ofNat (i + 1) : ℝ) / (KOps.ofNat len : ℝ)
+
+/-- the C09 premise for the remaining `k` frames of a render loop (a statement about the streaming run only:
+    at every output frame the playback rate is not negative and the decoder is ahead) -/
+def LoopOk {σ : Type} (fuel : Nat) (dt : ℝ) (len : Nat) : Nat → Nat → Sys σ ℝ → Prop
+  | 0, _, _ => True
+  | k + 1, i, s =>
+    FrameOk s (chunkTime i len) dt fuel ∧
+    ∀ s' f, s.renderFrame fuel (chunkTime i len) dt = .ok (s', f) → LoopOk fuel dt len k (i + 1) s'
+
+theorem loop_bisim {σ : Type} {W : World} (hW : W.Ok) {pos : σ → Nat} {good : σ → Prop} (fuel : Nat) (dt : ℝ)
+    (len m : Nat) : ∀ (k i a : Nat) (st : StaticSound ℝ) (s : Sys σ ℝ), Bisim W pos good st s a m →
+    LoopOk fuel dt len k i s →
+    ∃ st' s' outs a', StaticSound.renderLoop fuel dt len k i st = .ok (st', outs) ∧
+      Sys.renderLoop fuel dt len k i s = .ok (s', outs) ∧ Bisim W pos good st' s' a' m ∧ a ≤ a' ∧
+      outs.length = k := by
+  intro k
+  induction k with
+  | zero => intro i a st s B _; exact ⟨st, s, [], a, rfl, rfl, B, Nat.le_refl _, rfl⟩
+  | succ k ih =>
+    intro i a st s B hok
+    obtain ⟨hF, hnext⟩ := hok
+    obtain ⟨st1, s1, out, h1, h2, B1, _, _, _⟩ := frame_bisim hW B _ dt fuel hF
+    obtain ⟨st', s', outs, a', h3, h4, B', hle, hlen⟩ := ih (i + 1) _ st1 s1 B1 (hnext s1 out h2)
+    unfold chunkTime at h1 h2
+    refine ⟨st', s', out :: outs, a', ?_, ?_, B', by omega, by simp [hlen]⟩
+    · rw [StaticSound.renderLoop, h1]; simp only [h3]
+    · rw [Sys.renderLoop, h2]; simp only [h4]
+
+/-- the state after the parameter updates and the life-cycle gate of `process` (static) -/
+noncomputable def gatedS (st : StaticSound ℝ) (len : Nat) (dt : ℝ) (info : Info ℝ) : StaticSound ℝ :=
+  { st with volume := (st.volume.update tw32 (dt * (KOps.ofNat len : ℝ)) info).1, playbackRate := (st.playbackRate.update tw64 (dt * (KOps.ofNat len : ℝ)) info).1, panning := (st.panning.update tw32 (dt * (KOps.ofNat len : ℝ)) info).1, core := (st.core.gate (dt * (KOps.ofNat len : ℝ)) info).1 }
+
+/-- the state after the parameter updates and the life-cycle gate of `process` (streaming) -/
+noncomputable def gatedT {σ : Type} (s : Sys σ ℝ) (len : Nat) (dt : ℝ) (info : Info ℝ) : Sys σ ℝ :=
+  { s with volume := (s.volume.update tw32 (dt * (KOps.ofNat len : ℝ)) info).1, playbackRate := (s.playbackRate.update tw64 (dt * (KOps.ofNat len : ℝ)) info).1, panning := (s.panning.update tw32 (dt * (KOps.ofNat len : ℝ)) info).1, core := (s.core.gate (dt * (KOps.ofNat len : ℝ)) info).1 }
+
+theorem static_process_eq (fuel : Nat) (st : StaticSound ℝ) (len : Nat) (dt : ℝ) (info : Info ℝ) :
+    st.process fuel len dt info = if (st.core.gate (dt * (KOps.ofNat len : ℝ)) info).2 = true
+      then StaticSound.renderLoop fuel dt len len 0 (gatedS st len dt info)
+      else .ok (gatedS st len dt info, List.replicate len Frame.zero) := rfl
+
+theorem stream_processOk_eq {σ : Type} (fuel : Nat) (s : Sys σ ℝ) (len : Nat) (dt : ℝ) (info : Info ℝ) :
+    s.processOk fuel len dt info = if (s.core.gate (dt * (KOps.ofNat len : ℝ)) info).2 = true
+      then (if ((gatedT s len dt info).ring.len < 2 && !(gatedT s len dt info).reachedEnd) = true
+        then .ok (gatedT s len dt info, List.replicate len Frame.zero)
+        else Sys.renderLoop fuel dt len len 0 (gatedT s len dt info))
+      else .ok (gatedT s len dt info, List.replicate len Frame.zero) := rfl
+
+theorem gated_bisim {σ : Type} {W : World} {pos : σ → Nat} {good : σ → Prop}
+    {st : StaticSound ℝ} {s : Sys σ ℝ} {a m : Nat} (B : Bisim W pos good st s a m) (len : Nat) (dt : ℝ) (info : Info ℝ) :
+    Bisim W pos good (gatedS st len dt info) (gatedT s len dt info) a m :=
+  { sAt := { frames := B.sAt.frames, slice := B.sAt.slice, reverse := B.sAt.reverse,
+             transport := B.sAt.transport, resampler := B.sAt.resampler }
+    tIn := { cfg_slice := B.tIn.cfg_slice, cfg_n := B.tIn.cfg_n, inv := B.tIn.inv }
+    tAt := { ring := B.tAt.ring, transport := B.tAt.transport, m_pos := B.tAt.m_pos, played := B.tAt.played,
+             reached := B.tAt.reached }
+    frac := B.frac
+    sampleRate := B.sampleRate
+    volume := by show (st.volume.update _ _ _).1 = (s.volume.update _ _ _).1; rw [B.volume]
+    playbackRate := by show (st.playbackRate.update _ _ _).1 = (s.playbackRate.update _ _ _).1; rw [B.playbackRate]
+    panning := by show (st.panning.update _ _ _).1 = (s.panning.update _ _ _).1; rw [B.panning]
+    core := by show (st.core.gate _ _).1 = (s.core.gate _ _).1; rw [B.core]
+    cmds := B.cmds
+    noSeek := B.noSeek
+    frac_nonneg := B.frac_nonneg
+    frac_lt := B.frac_lt
+    inSync := SoundCore.apply_inSync s.core (.gate _ info) B.inSync
+    endStopped := fun hre hle => SoundCore.apply_stopped s.core (.gate _ info) (B.endStopped hre hle)
+    a_le := B.a_le
+    noErr := B.noErr
+    cap := B.cap }
+
+/-- the C09 premise for one `process` call: if the life-cycle gate lets the sound render, every frame is `FrameOk` -/
+def ProcOk {σ : Type} (fuel : Nat) (s : Sys σ ℝ) (len : Nat) (dt : ℝ) (info : Info ℝ) : Prop :=
+  (s.core.gate (dt * (KOps.ofNat len : ℝ)) info).2 = true → LoopOk fuel dt len len 0 (gatedT s len dt info)
+
+/-- **one `process` call**: same output frames, and the relation holds again -/
+theorem process_bisim {σ : Type} {W : World} (hW : W.Ok) {pos : σ → Nat} {good : σ → Prop}
+    {st : StaticSound ℝ} {s : Sys σ ℝ} {a m : Nat} (B : Bisim W pos good st s a m) (fuel len : Nat) (dt : ℝ)
+    (info : Info ℝ) (hok : ProcOk fuel s len dt info) :
+    ∃ st' s' outs a', st.process fuel len dt info = .ok (st', outs) ∧ s.process fuel len dt info = .ok (s', outs) ∧
+      Bisim W pos good st' s' a' m ∧ a ≤ a' ∧ outs.length = len := by
+  have Bg := gated_bisim B len dt info
+  unfold Sys.process
+  simp only [B.noErr, Bool.false_eq_true, if_false]
+  rw [static_process_eq, stream_processOk_eq, B.core]
+  by_cases hg : (s.core.gate (dt * (KOps.ofNat len : ℝ)) info).2 = true
+  · simp only [hg, if_true]
+    have hloop := hok hg
+    obtain ⟨st', s', outs, a', h1, h2, B', hle, hlen⟩ := loop_bisim hW fuel dt len m len 0 a _ _ Bg hloop
+    refine ⟨st', s', outs, a', h1, ?_, B', hle, hlen⟩
+    cases len with
+    | zero =>
+      simp only [Sys.renderLoop] at h2 ⊢
+      split
+      · rw [← h2]; rfl
+      · exact h2
+    | succ n =>
+      obtain ⟨hF, _⟩ := hloop
+      have : ¬ ((gatedT s (n + 1) dt info).ring.len < 2 && !(gatedT s (n + 1) dt info).reachedEnd) = true := by
+        rcases hF.ahead with h | h
+        · simp [h]
+        · have : ¬ (gatedT s (n + 1) dt info).ring.len < 2 := by omega
+          simp [this]
+      simp only [this, if_false]
+      exact h2
+  · simp only [hg, if_false]
+    exact ⟨_, _, _, a, rfl, rfl, Bg, Nat.le_refl _, by simp⟩
+
+
+open SoundCore in
+/-- the three life-cycle commands move the core along life-cycle events -/
+theorem lifeCmds_reach (c : Commands ℝ) (core : SoundCore ℝ) :
+    Reach core (applyOpt c.stop (fun tw core => core.stop tw)
+      (applyOpt c.resume (fun p core => core.resume p.1 p.2) (applyOpt c.pause (fun tw core => core.pause tw) core))) :=
+  ((applyOpt_reach c.pause _ core (fun tw c => Reach.single c (.pause tw))).trans
+    (applyOpt_reach c.resume _ _ (fun p c => Reach.single c (.resume p.1 p.2)))).trans
+    (applyOpt_reach c.stop _ _ (fun tw c => Reach.single c (.stop tw)))
+
+/-- `on_start_processing` touches the reported position / current frame, the six audio-side command slots,
+    the three parameters and the life-cycle core — nothing else -/
+theorem onStartProcessing_eq {σ : Type} (s : Sys σ ℝ) :
+    s.onStartProcessing = { s with currentFrame := s.updateCurrentFrame.currentFrame, sharedPosition := s.updateCurrentFrame.position, cmds := { s.cmds with setVolume := none, setPlaybackRate := none, setPanning := none, pause := none, resume := none, stop := none }, volume := StaticSound.readParam s.volume s.cmds.setVolume, playbackRate := StaticSound.readParam s.playbackRate s.cmds.setPlaybackRate, panning := StaticSound.readParam s.panning s.cmds.setPanning, core := (applyOpt s.cmds.stop (fun tw core => core.stop tw) (applyOpt s.cmds.resume (fun p core => core.resume p.1 p.2) (applyOpt s.cmds.pause (fun tw core => core.pause tw) s.core))) } := by
+  unfold Sys.onStartProcessing Sys.updateCurrentFrame Sys.readCommands
+  split <;> rfl
+
+/-- **`on_start_processing`** (no pending seek / loop command): the relation holds again -/
+theorem onStart_bisim {σ : Type} {W : World} {pos : σ → Nat} {good : σ → Prop}
+    {st : StaticSound ℝ} {s : Sys σ ℝ} {a m : Nat} (B : Bisim W pos good st s a m) :
+    ∃ st', st.onStartProcessing = .ok st' ∧ Bisim W pos good st' s.onStartProcessing a m ∧
+      st'.sharedPosition = (KOps.ofNat st.resampler.currentFrameIndex : ℝ) / (KOps.ofNat st.sampleRate : ℝ) := by
+  obtain ⟨h1, h2, h3⟩ := B.noSeek
+  have g1 : st.cmds.setLoopRegion = none := by rw [B.cmds]; exact h1
+  have g2 : st.cmds.seekBy = none := by rw [B.cmds]; exact h2
+  have g3 : st.cmds.seekTo = none := by rw [B.cmds]; exact h3
+  refine ⟨readLifeCmds st.cmds (readParamCmds { st with sharedPosition := (KOps.ofNat st.resampler.currentFrameIndex : ℝ) / (KOps.ofNat st.sampleRate : ℝ) }), ?_, ?_, ?_⟩
+  · unfold StaticSound.onStartProcessing StaticSound.readCommands readLoopCmd readSeekCmds
+    simp only [g1, g2, g3, applyOptE, andThen]
+  · have hcmds : ({} : Commands ℝ) = { s.cmds with setVolume := none, setPlaybackRate := none, setPanning := none, pause := none, resume := none, stop := none } := by
+      cases hc : s.cmds
+      simp only [hc] at h1 h2 h3
+      subst h1 h2 h3
+      rfl
+    have hreach := lifeCmds_reach s.cmds s.core
+    rw [onStartProcessing_eq]
+    exact {
+      sAt := { frames := B.sAt.frames, slice := B.sAt.slice, reverse := B.sAt.reverse,
+               transport := B.sAt.transport, resampler := B.sAt.resampler }
+      tIn := { cfg_slice := B.tIn.cfg_slice, cfg_n := B.tIn.cfg_n, inv := B.tIn.inv }
+      tAt := { ring := B.tAt.ring, transport := B.tAt.transport, m_pos := B.tAt.m_pos, played := B.tAt.played,
+               reached := B.tAt.reached }
+      frac := B.frac
+      sampleRate := B.sampleRate
+      volume := by
+        show StaticSound.readParam st.volume st.cmds.setVolume = StaticSound.readParam s.volume s.cmds.setVolume
+        rw [B.volume, B.cmds]
+      playbackRate := by
+        show StaticSound.readParam st.playbackRate st.cmds.setPlaybackRate = StaticSound.readParam s.playbackRate s.cmds.setPlaybackRate
+        rw [B.playbackRate, B.cmds]
+      panning := by
+        show StaticSound.readParam st.panning st.cmds.setPanning = StaticSound.readParam s.panning s.cmds.setPanning
+        rw [B.panning, B.cmds]
+      core := by
+        unfold readLifeCmds readParamCmds
+        simp only []
+        rw [B.core, B.cmds]
+      cmds := hcmds
+      noSeek := ⟨h1, h2, h3⟩
+      frac_nonneg := B.frac_nonneg
+      frac_lt := B.frac_lt
+      inSync := SoundCore.reach_inSync hreach B.inSync
+      endStopped := fun hre hle => SoundCore.reach_stopped hreach (B.endStopped hre hle)
+      a_le := B.a_le
+      noErr := B.noErr
+      cap := B.cap }
+  · rfl
+
+/-- a command that is not for the decoder (`set_loop_region`, `seek_by`, `seek_to`) -/
+def AudioCmd : Command ℝ → Prop
+  | .setLoopRegion _ => False
+  | .seekBy _ => False
+  | .seekTo _ => False
+  | _ => True
+
+/-- **a handle command** written to both handles: the relation holds again -/
+theorem write_bisim {σ : Type} {W : World} {pos : σ → Nat} {good : σ → Prop}
+    {st : StaticSound ℝ} {s : Sys σ ℝ} {a m : Nat} (B : Bisim W pos good st s a m) (c : Command ℝ) (hc : AudioCmd c) :
+    Bisim W pos good { st with cmds := st.cmds.write c } (s.write c) a m :=
+  { sAt := { frames := B.sAt.frames, slice := B.sAt.slice, reverse := B.sAt.reverse,
+             transport := B.sAt.transport, resampler := B.sAt.resampler }
+    tIn := { cfg_slice := B.tIn.cfg_slice, cfg_n := B.tIn.cfg_n, inv := B.tIn.inv }
+    tAt := { ring := B.tAt.ring, transport := B.tAt.transport, m_pos := B.tAt.m_pos, played := B.tAt.played,
+             reached := B.tAt.reached }
+    frac := B.frac
+    sampleRate := B.sampleRate
+    volume := B.volume
+    playbackRate := B.playbackRate
+    panning := B.panning
+    core := B.core
+    cmds := by show st.cmds.write c = s.cmds.write c; rw [B.cmds]
+    noSeek := by
+      obtain ⟨h1, h2, h3⟩ := B.noSeek
+      cases c with
+      | setLoopRegion r => exact absurd hc (by simp [AudioCmd])
+      | seekBy x => exact absurd hc (by simp [AudioCmd])
+      | seekTo x => exact absurd hc (by simp [AudioCmd])
+      | _ => exact ⟨h1, h2, h3⟩
+    frac_nonneg := B.frac_nonneg
+    frac_lt := B.frac_lt
+    inSync := B.inSync
+    endStopped := B.endStopped
+    a_le := B.a_le
+    noErr := B.noErr
+    cap := B.cap }
+
+
+/-! ### one iteration of the decoder loop -/
+
+theorem cfgOk_of_world (W : World) (hW : W.Ok) (cfg : Dec.Cfg) (h1 : cfg.slice = W.slice) (h2 : cfg.numFrames = W.n) :
+    Dec.CfgOk W.frames.toList cfg := by
+  unfold Dec.CfgOk
+  have hs := hW.slice_ok
+  unfold World.n at h2
+  rw [h1]
+  cases hsl : W.slice with
+  | none => simp only [hsl] at h2 ⊢; simp [h2]
+  | some ab =>
+    obtain ⟨x, y⟩ := ab
+    simp only [hsl] at h2 hs ⊢
+    exact ⟨hs.1, by simpa using hs.2, h2⟩
+
+/-- C18's specification of `frame_at_index` is the world's `srcAt` -/
+theorem want_eq_srcAt (W : World) (hW : W.Ok) (cfg : Dec.Cfg) (h1 : cfg.slice = W.slice) (h2 : cfg.numFrames = W.n)
+    (p : Nat) (f : Frame ℝ) (h : Dec.want W.frames.toList cfg p = some f) : f = W.srcAt p := by
+  have hs := hW.slice_ok
+  unfold Dec.want Dec.Cfg.span Dec.Cfg.start at h
+  unfold World.srcAt World.n World.start
+  unfold World.n at h2
+  rw [h1] at h
+  cases hsl : W.slice with
+  | none =>
+    simp only [hsl] at h h2 hs ⊢
+    rw [h2] at h
+    by_cases hp : p < W.frames.size
+    · simp only [hp, if_true, Nat.zero_add, Nat.add_zero] at h ⊢
+      rw [Array.getElem?_toList] at h
+      rw [h]; rfl
+    · simp only [hp, if_false] at h ⊢
+      injection h with h; exact h.symm
+  | some ab =>
+    obtain ⟨x, y⟩ := ab
+    simp only [hsl] at h h2 hs ⊢
+    by_cases hp : p < y - x
+    · simp only [hp, if_true] at h ⊢
+      rw [Array.getElem?_toList, Nat.add_comm] at h
+      rw [h]; rfl
+    · simp only [hp, if_false] at h ⊢
+      injection h with h; exact h.symm
+
+/-- **what one `run` pushes**: the next entry of the sequence, whatever the decoder's packets and seeks -/
+theorem produce_at {σ : Type} {W : World} (hW : W.Ok) {D : Decoder σ ℝ} {pos : σ → Nat} {good : σ → Prop}
+    (C : Dec.Contract D W.frames.toList pos good) {s : Sys σ ℝ} {a m : Nat} (hin : StreamIn W pos good s)
+    (hat : StreamAt W s a m) (hle : a ≤ m) (hroom : m - a < s.ring.cap) (hre : s.reachedEnd = false)
+    (fuel : Nat) (hfuel : W.frames.size < fuel) :
+    ∃ ds', Dec.Inv W.frames.toList pos good ds' ∧
+      Sys.produce D fuel s = (if W.pl m = true then RunOutcome.ok .continue else RunOutcome.ok .end, { s with ds := ds', ring := { s.ring with items := W.ringSlice a (m + 1) }, transport := W.trAt m, reachedEnd := !W.pl m }) := by
+  have hm := hat.m_pos
+  have hcfg := cfgOk_of_world W hW s.cfg hin.cfg_slice hin.cfg_n
+  obtain ⟨f, ds', hfa, hwant, hinv', _, _⟩ := Dec.frameAtIndex_correct D W.frames.toList pos good C s.cfg hcfg fuel
+    (by simpa using hfuel) s.ds hin.inv s.transport.position
+  have hf := want_eq_srcAt W hW s.cfg hin.cfg_slice hin.cfg_n _ f hwant
+  refine ⟨ds', hinv', ?_⟩
+  unfold Sys.produce
+  rw [hfa]
+  simp only []
+  have hentry : (⟨f, s.transport.position⟩ : TimestampedFrame ℝ) = W.ringSeq m := by
+    rw [hf, hat.transport]
+    have : m = (m - 1) + 1 := by omega
+    conv_rhs => rw [this]
+    rfl
+  have hpush : s.ring.push ⟨f, s.transport.position⟩ = some { s.ring with items := W.ringSlice a (m + 1) } := by
+    unfold Ring.push
+    have hl : s.ring.items.length < s.ring.cap := by rw [hat.ring, W.ringSlice_length]; exact hroom
+    simp only [hl, if_true]
+    rw [hentry, hat.ring, W.ringSlice_push a m hle]
+  rw [hpush]
+  simp only []
+  have hinc : s.transport.increment s.cfg.numFrames = .ok (W.trAt m) := by
+    rw [hat.transport, hin.cfg_n]
+    have := W.trAt_step hW (m - 1)
+    have e : m - 1 + 1 = m := by omega
+    rw [e] at this; exact this
+  rw [hinc]
+  simp only []
+  cases hp : W.pl m with
+  | true =>
+    have : (W.trAt m).playing = true := hp
+    simp [this, hre]
+  | false =>
+    have : (W.trAt m).playing = false := hp
+    simp [this]
+
+/-- `run` with no pending decoder command, a ring that is not full and a sound that is not Stopped is `produce` -/
+theorem run_eq_produce {σ : Type} (D : Decoder σ ℝ) (fuel : Nat) (s : Sys σ ℝ) (h0 : s.core.shared ≠ .stopped)
+    (hfull : s.ring.isFull = false) (h1 : s.cmds.setLoopRegion = none) (h2 : s.cmds.seekBy = none)
+    (h3 : s.cmds.seekTo = none) : Sys.run D fuel s = Sys.produce D fuel s := by
+  unfold Sys.run
+  have hl : Sys.readLoopCmd s = s := by unfold Sys.readLoopCmd; simp [h1]
+  simp only [h0, if_false, hfull, Bool.false_eq_true, hl]
+  unfold Sys.readSeekByCmd
+  simp only [h2]
+  unfold Sys.readSeekToCmd
+  simp only [h3]
+
+/-- the decoder's move in a history (`Op.decode`) -/
+noncomputable def decodeStep {σ : Type} (D : Decoder σ ℝ) (fuel : Nat) (s : Sys σ ℝ) : Sys σ ℝ :=
+  if s.reachedEnd then s else (Sys.threadIter D fuel s).2
+
+/-- **one iteration of the decoder loop**: the relation holds again (with one more entry pushed, or unchanged) -/
+theorem decode_bisim {σ : Type} {W : World} (hW : W.Ok) {D : Decoder σ ℝ} {pos : σ → Nat} {good : σ → Prop}
+    (C : Dec.Contract D W.frames.toList pos good) {st : StaticSound ℝ} {s : Sys σ ℝ} {a m : Nat}
+    (B : Bisim W pos good st s a m) (fuel : Nat) (hfuel : W.frames.size < fuel) :
+    ∃ m', Bisim W pos good st (decodeStep D fuel s) a m' ∧ m ≤ m' := by
+  unfold decodeStep
+  by_cases hre : s.reachedEnd = true
+  · simp only [hre, if_true]; exact ⟨m, B, Nat.le_refl _⟩
+  · have hre' : s.reachedEnd = false := by simpa using hre
+    simp only [hre', Bool.false_eq_true, if_false]
+    unfold Sys.threadIter
+    by_cases h0 : s.core.shared = .stopped
+    · have : Sys.run D fuel s = (.ok .end, s) := by unfold Sys.run; simp [h0]
+      rw [this]; exact ⟨m, B, Nat.le_refl _⟩
+    · by_cases hfull : s.ring.isFull = true
+      · have : Sys.run D fuel s = (.ok .wait, s) := by unfold Sys.run; simp [h0, hfull]
+        rw [this]; exact ⟨m, B, Nat.le_refl _⟩
+      · have hfull' : s.ring.isFull = false := by simpa using hfull
+        rw [run_eq_produce D fuel s h0 hfull' B.noSeek.1 B.noSeek.2.1 B.noSeek.2.2]
+        have hle := B.a_le hre'
+        have hroom : m - a < s.ring.cap := by
+          unfold Ring.isFull at hfull'
+          rw [B.tAt.ring, W.ringSlice_length] at hfull'
+          simpa using hfull'
+        obtain ⟨ds', hinv', hp⟩ := produce_at hW C B.tIn B.tAt hle hroom hre' fuel hfuel
+        rw [hp]
+        have hB : Bisim W pos good st ({ s with ds := ds', ring := { s.ring with items := W.ringSlice a (m + 1) }, transport := W.trAt m, reachedEnd := !W.pl m } : Sys σ ℝ) a (m + 1) :=
+          { sAt := B.sAt
+            tIn := { cfg_slice := B.tIn.cfg_slice, cfg_n := B.tIn.cfg_n, inv := hinv' }
+            tAt := { ring := rfl, transport := rfl, m_pos := by omega
+                     played := by
+                       intro k hk
+                       have hpm : W.pl (m - 1) = true := by
+                         have := B.tAt.reached; rw [hre'] at this; simpa using this.symm
+                       exact W.pl_of_later k (m - 1) (by omega) hpm
+                     reached := rfl }
+            frac := B.frac
+            sampleRate := B.sampleRate
+            volume := B.volume
+            playbackRate := B.playbackRate
+            panning := B.panning
+            core := B.core
+            cmds := B.cmds
+            noSeek := B.noSeek
+            frac_nonneg := B.frac_nonneg
+            frac_lt := B.frac_lt
+            inSync := B.inSync
+            endStopped := fun _ hle' => by omega
+            a_le := fun _ => by omega
+            noErr := B.noErr
+            cap := B.cap }
+        refine ⟨m + 1, ?_, by omega⟩
+        cases hpl : W.pl m with
+        | true => rw [hpl] at hB; simpa using hB
+        | false => rw [hpl] at hB; simpa using hB
+
+
+/-! ### whole histories -/
+
+/-- `pop_error` only touches the error ring -/
+theorem popError_bisim {σ : Type} {W : World} {pos : σ → Nat} {good : σ → Prop}
+    {st : StaticSound ℝ} {s : Sys σ ℝ} {a m : Nat} (B : Bisim W pos good st s a m) :
+    Bisim W pos good st (s.popError).2 a m := by
+  unfold Sys.popError
+  cases s.errRing.pop with
+  | none => exact B
+  | some r =>
+    exact { sAt := B.sAt
+            tIn := { cfg_slice := B.tIn.cfg_slice, cfg_n := B.tIn.cfg_n, inv := B.tIn.inv }
+            tAt := { ring := B.tAt.ring, transport := B.tAt.transport, m_pos := B.tAt.m_pos,
+                     played := B.tAt.played, reached := B.tAt.reached }
+            frac := B.frac, sampleRate := B.sampleRate, volume := B.volume, playbackRate := B.playbackRate
+            panning := B.panning, core := B.core, cmds := B.cmds, noSeek := B.noSeek
+            frac_nonneg := B.frac_nonneg, frac_lt := B.frac_lt, inSync := B.inSync
+            endStopped := B.endStopped, a_le := B.a_le, noErr := B.noErr, cap := B.cap }
+
+/-- the static sound's view of a history of the streaming sound: the same handle commands and callbacks;
+    decoder iterations and `pop_error` have no counterpart -/
+def staticOp : Op ℝ → Option (StaticSound.Op ℝ)
+  | .command c => some (.command c)
+  | .popError => none
+  | .startProcessing => some .startProcessing
+  | .process len dt info => some (.process len dt info)
+  | .decode => none
+
+/-- the C09 premise for one step of a history -/
+def OpOk {σ : Type} (fuel : Nat) (s : Sys σ ℝ) : Op ℝ → Prop
+  | .command c => AudioCmd c
+  | .process len dt info => ProcOk fuel s len dt info
+  | _ => True
+
+/-- the C09 premise for a history (a statement about the streaming run only): no seek / loop commands,
+    playback rates not negative and the decoder ahead at every rendered frame -/
+def Good {σ : Type} (D : Decoder σ ℝ) (fuel : Nat) : List (Op ℝ) → Sys σ ℝ → Prop
+  | [], _ => True
+  | op :: ops, s => OpOk fuel s op ∧ ∀ s' out, Sys.step D fuel s op = .ok (s', out) → Good D fuel ops s'
+
+/-- **every history**: same output frames, and the relation holds again at the end (hence after every prefix) -/
+theorem run_bisim {σ : Type} {W : World} (hW : W.Ok) {D : Decoder σ ℝ} {pos : σ → Nat} {good : σ → Prop}
+    (C : Dec.Contract D W.frames.toList pos good) (fuel : Nat) (hfuel : W.frames.size < fuel) :
+    ∀ (ops : List (Op ℝ)) (st : StaticSound ℝ) (s : Sys σ ℝ) (a m : Nat), Bisim W pos good st s a m →
+      Good D fuel ops s →
+      ∃ st' s' outs a' m', StaticSound.run fuel st (ops.filterMap staticOp) = .ok (st', outs) ∧
+        Sys.runOps D fuel s ops = .ok (s', outs) ∧ Bisim W pos good st' s' a' m' := by
+  intro ops
+  induction ops with
+  | nil => intro st s a m B _; exact ⟨st, s, [], a, m, rfl, rfl, B⟩
+  | cons op ops ih =>
+    intro st s a m B hgood
+    obtain ⟨hop, hnext⟩ := hgood
+    cases op with
+    | command c =>
+      have B1 := write_bisim B c hop
+      have hs : Sys.step D fuel s (.command c) = .ok (s.write c, []) := rfl
+      obtain ⟨st', s', outs, a', m', h1, h2, B'⟩ := ih _ _ a m B1 (hnext _ _ hs)
+      refine ⟨st', s', outs, a', m', ?_, ?_, B'⟩
+      · simp only [List.filterMap_cons, staticOp]
+        rw [StaticSound.run_cons]
+        simp only [StaticSound.step, h1, List.nil_append]
+      · rw [Sys.runOps, hs]; simp only [h2, List.nil_append]
+    | popError =>
+      have B1 := popError_bisim B
+      have hs : Sys.step D fuel s .popError = .ok ((s.popError).2, []) := rfl
+      obtain ⟨st', s', outs, a', m', h1, h2, B'⟩ := ih _ _ a m B1 (hnext _ _ hs)
+      refine ⟨st', s', outs, a', m', ?_, ?_, B'⟩
+      · simp only [List.filterMap_cons, staticOp]; exact h1
+      · rw [Sys.runOps, hs]; simp only [h2, List.nil_append]
+    | startProcessing =>
+      obtain ⟨st1, hst1, B1, _⟩ := onStart_bisim B
+      have hs : Sys.step D fuel s .startProcessing = .ok (s.onStartProcessing, []) := rfl
+      obtain ⟨st', s', outs, a', m', h1, h2, B'⟩ := ih _ _ a m B1 (hnext _ _ hs)
+      refine ⟨st', s', outs, a', m', ?_, ?_, B'⟩
+      · simp only [List.filterMap_cons, staticOp]
+        rw [StaticSound.run_cons]
+        simp only [StaticSound.step, hst1, h1, List.nil_append]
+      · rw [Sys.runOps, hs]; simp only [h2, List.nil_append]
+    | process len dt info =>
+      obtain ⟨st1, s1, o1, a1, hp1, hp2, B1, _, _⟩ := process_bisim hW B fuel len dt info hop
+      have hs : Sys.step D fuel s (.process len dt info) = .ok (s1, o1) := hp2
+      obtain ⟨st', s', outs, a', m', h1, h2, B'⟩ := ih _ _ a1 m B1 (hnext _ _ hs)
+      refine ⟨st', s', o1 ++ outs, a', m', ?_, ?_, B'⟩
+      · simp only [List.filterMap_cons, staticOp]
+        rw [StaticSound.run_cons]
+        simp only [StaticSound.step, hp1, h1]
+      · rw [Sys.runOps, hs]; simp only [h2]
+    | decode =>
+      obtain ⟨m1, B1, _⟩ := decode_bisim hW C B fuel hfuel
+      have hs : Sys.step D fuel s .decode = .ok (decodeStep D fuel s, []) := rfl
+      obtain ⟨st', s', outs, a', m', h1, h2, B'⟩ := ih _ _ a m1 B1 (hnext _ _ hs)
+      refine ⟨st', s', outs, a', m', ?_, ?_, B'⟩
+      · simp only [List.filterMap_cons, staticOp]; exact h1
+      · rw [Sys.runOps, hs]; simp only [h2, List.nil_append]
 
 end Streaming
 end K
